@@ -41,7 +41,7 @@ def need_repo_bins():
 
 def generic(prop, tier, seed, scaled_quick=("s1",), scaled_thorough=("s1", "s2", "s3"), prod=True,
             budgets=(300, 1800), level="exploration", rule="", musthit=(), assumptions=(), replay_candidates=True,
-            extra_stages=None):
+            extra_stages=None, softhit=()):
     run = Run(prop, tier, seed)
     prod_bin = build_variant("prod")
     anchor(prod_bin)
@@ -56,7 +56,7 @@ def generic(prop, tier, seed, scaled_quick=("s1",), scaled_thorough=("s1", "s2",
         extra_stages(run, prod_bin, tier)
     if replay_candidates:
         run.replay_candidates_at_prod(prod_bin)
-    return run.finish(level, rule, musthit=musthit, assumptions=list(TRUSTED) + list(assumptions))
+    return run.finish(level, rule, musthit=musthit, assumptions=list(TRUSTED) + list(assumptions), softhit=softhit)
 
 
 def c01(tier, seed):
@@ -66,8 +66,8 @@ def c01(tier, seed):
              "read back with one recipient key (varying read-buffer sizes) and compared with the reference map; "
              "distinct = distinct (program, reading key); non-trivial = at least 2 files, or 2 pieces, or one chunk of data",
         musthit=["musthit:encrypt_plaintext_multiple_of_chunk", "align:piece_end@chunk0", "align:stream_end@chunk0",
-                 "align:piece_end@block0", "musthit:compressed_block_end_next_to_chunk_edge",
-                 "musthit:compressed_block_ends_with_standalone_final_byte"],
+                 "align:piece_end@block0"],
+        softhit=["musthit:compressed_block_end_next_to_chunk_edge", "musthit:compressed_block_ends_with_standalone_final_byte"],
     )
 
 
@@ -78,8 +78,8 @@ def c11(tier, seed):
              "with std::io::Cursor over the same plaintext (seek from start/current/end to targets in [0,len], reads, position queries); "
              "one evaluation = one (layer, length) with its set of histories; distinct = distinct (layer, length, seed); non-trivial = at least 2 operations",
         musthit=["musthit:seek_to_len", "musthit:seek_end_len_multiple_of_chunk", "musthit:position_query_in_last_partial_chunk",
-                 "lenclass:enc:len%chunk=0", "lenclass:enc:len<tag", "lenclass:comp:len%block=0",
-                 "musthit:compressed_block_end_next_to_chunk_edge", "musthit:lone_unneeded_final_byte_starts_a_chunk"],
+                 "lenclass:enc:len%chunk=0", "lenclass:enc:len<tag", "lenclass:comp:len%block=0"],
+        softhit=["musthit:compressed_block_end_next_to_chunk_edge", "musthit:lone_unneeded_final_byte_starts_a_chunk"],
     )
 
 
@@ -175,8 +175,8 @@ def c13(tier, seed):
         rule="fault = transfer schedule: archives are written through destinations accepting 1 / 1..7 / random / <=4095 bytes per call or interrupting every "
              "2nd/3rd call and read back; read and repaired (both modes, intact and cut) through sources returning as few bytes per call, and compared with the "
              "results obtained from memory; distinct = distinct (program, schedule, side); all non-trivial",
-        musthit=["musthit:compress_only_one_byte_source_repair", "write:Interrupt", "write:Max", "read:Max", "read:StopAt",
-                 "musthit:full_block_whose_last_byte_is_not_needed", "held:repair"],
+        musthit=["musthit:compress_only_one_byte_source_repair", "write:Interrupt", "write:Max", "read:Max", "read:StopAt", "held:repair"],
+        softhit=["musthit:full_block_whose_last_byte_is_not_needed"],
     )
 
 
@@ -186,8 +186,8 @@ def c14(tier, seed):
         rule="fault = cut right after flush() returned: the bytes the destination holds at that moment are repaired in both modes; every file must come back "
              "with at least the bytes appended before the flush (plain / unauthenticated) or the bytes the independent decoder finds in completed encryption "
              "chunks (authenticated); distinct = distinct (program, flush index); non-trivial = something was appended before the flush",
-        musthit=["musthit:compressible_200000_then_flush", "musthit:flush_exactly_on_block_edge", "flush:layers0", "flush:layers1", "flush:layers2", "flush:layers3",
-                 "musthit:flush_with_less_than_a_tag_in_the_chunk_in_progress", "musthit:block_end_after_input_window_edge_last_byte_not_needed"],
+        musthit=["musthit:compressible_200000_then_flush", "musthit:flush_exactly_on_block_edge", "flush:layers0", "flush:layers1", "flush:layers2", "flush:layers3"],
+        softhit=["musthit:flush_with_less_than_a_tag_in_the_chunk_in_progress", "musthit:block_end_after_input_window_edge_last_byte_not_needed"],
     )
 
 
@@ -254,7 +254,8 @@ def c15(tier, seed):
              "extracting (all files, or only one with the others skipped) an archive streamed from a scratch file; two shapes (4 files x 16 interleaved runs; one file added in a single piece), sizes 8 and 64 MiB (quick) or 16, 128 and 1024 MiB "
              "(thorough), 4 layer combos, several levels, incompressible and constant data; verdict: peak(largest) - peak(smallest) <= 2 MiB and peak under a frozen "
              "ceiling; distinct = distinct (operation, layers, level, data, size); all non-trivial",
-        musthit=["growth_comparisons:write", "growth_comparisons:repair", "growth_comparisons:extract", "shape:oneblock", "shape:interleaved:subset_extraction", "shape:oneblock:subset_extraction"],
+        musthit=["growth_comparisons:write", "growth_comparisons:repair", "growth_comparisons:extract", "shape:oneblock", "shape:interleaved:subset_extraction", "shape:oneblock:subset_extraction",
+                 "shape:twoopen", "sources_with_short_reads"],
         assumptions=["decided for the sizes actually streamed; not extrapolated beyond them"],
     )
 
